@@ -1,9 +1,9 @@
 (* C16 -- Recipe lifecycle discipline is enforced.  All theorems quantify over every lifecycle state / call sequence. *)
-Require Import Base GenBase Lifecycle LifecycleThm LifecycleGen LifecycleGenOK.
+Require Import Base GenBase Lifecycle LifecycleThm LifecycleTie.
 
 (* tie: the guards the source has now are the guards of the model *)
-Theorem C16_source_guards_equal_model : gen_lifecycle_guards = model_guards.
-Proof. exact gen_guards_eq_model. Qed.
+Theorem C16_source_guards_equal_model : tie_lifecycle_guards = model_guards.
+Proof. exact tie_guards_eq_model. Qed.
 Print Assumptions C16_source_guards_equal_model.
 
 (* after a successful bake every declaring, step-adding or stage call, and a second bake, raises RuntimeError and nothing changes *)
